@@ -51,9 +51,9 @@ def gen_event(rng, charset):
             else:
                 ev[k] = "".join(rng.choice(ALPHA) for _ in range(rng.randrange(1, 7)))
         elif k == "event":
-            ev[k] = rng.choice(["e", "", "message", "a b", " lead", "x:y", "é", "update ", "e\tf", "data"])
+            ev[k] = rng.choice(["e", "", "message", "a b", " lead", "x:y", "é", "update ", "e\tf", "data", "e\u2028f", "n\x85l", "v\x0bt", "f\x0cf", "g\x1dg"])  # (only CR and LF end a line)
         elif k == "id":
-            ev[k] = rng.choice(["1", "", "a b", " 7", "é", "0", "x:y", "id", "-1"]) + rng.choice(["", "", str(rng.randrange(1000))])
+            ev[k] = rng.choice(["1", "", "a b", " 7", "é", "0", "x:y", "id", "-1", "i\u2029d", "i\x85", "\x1c9"]) + rng.choice(["", "", str(rng.randrange(1000))])
         else:
             ev[k] = rng.choice([0, 1, 5, 3000, 10 ** 9])
     # keep what the charset can encode
